@@ -46,6 +46,39 @@ def subscripts(fn):
                 yield n, ks[1], ks[2]
 
 
+def resolve_literal(d, n, depth=0):
+    """the string literal an expression denotes: a literal, a local initialised with one, or a call of a helper that returns one"""
+    if n is None or depth > 4:
+        return None
+    n = ir.strip(n)
+    k = n.get("kind")
+    if k == "StringLiteral":
+        return unq(n.get("value", ""))
+    if k == "DeclRefExpr":
+        dd = d.by_id.get((n.get("referencedDecl") or {}).get("id"))
+        if dd is not None and dd.get("kind") == "VarDecl" and ir.ekids(dd):
+            return resolve_literal(d, ir.ekids(dd)[-1], depth + 1)
+        return None
+    if k == "CallExpr":
+        c = ir.strip(ir.ekids(n)[0])
+        fn = d.by_id.get((c.get("referencedDecl") or {}).get("id")) if c.get("kind") == "DeclRefExpr" else None
+        if fn is not None and ir.body(fn) is not None:
+            rets = [x for x in ir.walk_expr(ir.body(fn)) if x.get("kind") == "ReturnStmt" and ir.ekids(x)]
+            if len(rets) == 1:
+                return resolve_literal(d, ir.ekids(rets[0])[0], depth + 1)
+    return None
+
+
+def literal_locals(d, fn):
+    out = {}
+    for v in ir.walk_expr(fn):
+        if v.get("kind") == "VarDecl" and ir.ekids(v) and "char" in ir.qtype(v) and "*" in ir.qtype(v):
+            lit = resolve_literal(d, ir.ekids(v)[-1])
+            if lit is not None and "\\" not in lit:
+                out[v.get("id")] = lit
+    return out
+
+
 def loop_env(fn):
     env = {}
     for n in ir.walk_expr(fn):
@@ -61,8 +94,13 @@ def rule_index(rep, d, fns):
                           "index whose type-derived interval lies inside the extent")
     for fn in fns:
         env = loop_env(fn)
+        lits = literal_locals(d, fn)
+        env["__lits__"] = lits
         for node, base, idx in subscripts(fn):
             ext = extent_of(base)
+            bs = ir.strip(base)
+            if ext is None and bs.get("kind") == "DeclRefExpr" and (bs.get("referencedDecl") or {}).get("id") in lits:
+                ext = len(lits[(bs.get("referencedDecl") or {}).get("id")]) + 1
             if ext is None:
                 continue
             iv = trange.interval(idx, env)
@@ -95,6 +133,12 @@ def rule_alpha(rep, d, dec, enc, helpers=()):
                           "alphabet[i] is set to i for exactly i = 0..63, and the decoder tests against that same sentinel")
     for fn in (dec, enc):
         lits = [n for n in ir.walk_expr(fn) if n.get("kind") == "StringLiteral" and len(unq(n.get("value", ""))) >= 32]
+        # alphabets reached through a local / helper (`const char* alphabet = detail::base64_alphabet();`)
+        via = [(vid, lit) for vid, lit in literal_locals(d, fn).items() if len(lit) >= 32]
+        for vid, lit in via:
+            holder = d.by_id.get(vid)
+            if holder is not None and not any(unq(x.get("value", "")) == lit for x in lits):
+                lits.append({"kind": "StringLiteral", "value": '"%s"' % lit, "loc": holder.get("loc"), "range": holder.get("range")})
         if not lits:
             rep.inconclusive("C13.alpha", fn["name"], "alphabet literal", detail="no alphabet literal found")
         for i, l in enumerate(lits):
@@ -417,7 +461,9 @@ def rule_input(rep, d, fns):
                     li = linear.lin(init, symmap)
                     if li is not None and li == Lin({"S": 1}):
                         facts.append(Lin({"S": 1, "v:" + nm: -1}))
-                ok = idx is not None and linear.entails(facts, idx, ()) and linear.entails(facts, Lin({"S": 1, "": -1}) - idx, ())
+                unsigned_vars = tuple("v:" + v.get("name") for v in ir.walk_expr(fn) if v.get("kind") == "VarDecl" and ir.qtype(v).replace("const ", "") in
+                                      ("unsigned long", "unsigned int", "unsigned long long", "unsigned short", "unsigned char"))
+                ok = idx is not None and linear.entails(facts, idx, unsigned_vars) and linear.entails(facts, Lin({"S": 1, "": -1}) - idx, unsigned_vars)
                 prev = verdict.get(id(n), (n, True, ""))
                 verdict[id(n)] = (n, prev[1] and ok, "" if ok else "the index `%s` is not provably inside [0, size()) on a path reaching `%s`: for an empty (or all-padding) input "
                                                                    "an unsigned `len - 1` wraps and the read is out of bounds" % (ir.show(t[2]), d.text(n)[:40]))
